@@ -31,8 +31,9 @@ func (rs References) GetReferences(table, uuid string) References {
 		if spec.ToTable != table {
 			continue
 		}
-		if _, ok := values[uuid]; ok {
-			refs[spec] = Reference{uuid: values[uuid]}
+		if from, ok := values[uuid]; ok {
+			// return a copy, callers calculate reference updates in place
+			refs[spec] = Reference{uuid: append([]string{}, from...)}
 		}
 	}
 	return refs
